@@ -605,8 +605,11 @@ impl Interface {
             .min();
 
         #[cfg(feature = "proto-ipv6-slaac")]
-        if self.inner.slaac_enabled {
-            res = res.min(self.inner.slaac.poll_at(timestamp));
+        if self.inner.slaac_enabled
+            && let Some(slaac_at) = self.inner.slaac.poll_at(timestamp)
+        {
+            // `None` means "no deadline": it must not win the comparison.
+            res = Some(res.map_or(slaac_at, |at| at.min(slaac_at)));
         }
 
         res
